@@ -104,15 +104,29 @@ def run(ctx, res):
                         okg = isinstance(r, StructV) and r.variant == "Err" and isinstance(e, StructV) and e.variant == "WrongImplementation" and \
                             (want_kind != kind or solver.entails(s2.pc, flit(ne(H.count(), want_fmt))))
                         res.ob(okg, "fci-gating", pf[0], f"{pname}::parse_fci::<{fname}> refuses (WrongImplementation) only a different kind or FMT", detail=repr(r)[:200], pc=s2.pc)
+        from ..core import arithmetic
+        arithmetic(res, I, d)
     res.floor("gating outcomes", n_gate, 30)
     # ------------------------------------------------------------------ decoders
+    n_dec = decoders(F, D, res, fcis)
+    res.floor("decoder transitions / accessor results compared", n_dec, 14)
+    res.analysed = {"gating_outcomes": n_gate, "decoder_checks": n_dec}
+    res.assumptions.append("NACK: completeness of the bit scan (no set bit is skipped) is decided per scan step (rule nack-transition: +1, same word, the bit left was tested clear); the induction over the steps between two yields is the usual one, stated in DESIGN.md")
+
+
+def decoders(F, D, res, fcis, only=None):
+    """the decoding rules of every FCI parser (or of those named in `only`); returns the number of comparisons"""
     n_dec = 0
     for fname, fadt in fcis.items():
+        if only is not None and fname not in only:
+            continue
         d = D.impl_item(FCI_PARSER, fadt, "parse")
         I = Interp(F)
         inp = input_slice()
         LEN = inp.length()
         outs = I.run(d, [inp])
+        from ..core import arithmetic
+        arithmetic(res, I, d)
         oks = [(s, v.fields["0"]) for s, k, v in outs if k == "val" and isinstance(v, StructV) and v.variant == "Ok"]
         errs = [(s, v.fields["0"]) for s, k, v in outs if k == "val" and isinstance(v, StructV) and v.variant == "Err"]
         if fname == "Pli":
@@ -225,9 +239,7 @@ def run(ctx, res):
                         else:
                             res.ob(okv, *a, **kw)
                     n_dec += best[1]
-    res.floor("decoder transitions / accessor results compared", n_dec, 14)
-    res.analysed = {"gating_outcomes": n_gate, "decoder_checks": n_dec}
-    res.assumptions.append("NACK: completeness of the bit scan (no set bit is skipped) is decided per scan step (rule nack-transition: +1, same word, the bit left was tested clear); the induction over the steps between two yields is the usual one, stated in DESIGN.md")
+    return n_dec
 
 
 def nack_table(res, I, rep, nd, inp, LEN, syms, wk, bk):
